@@ -7,6 +7,7 @@ import (
 	"go/ast"
 	"go/token"
 	"go/types"
+	"sort"
 	"strings"
 )
 
@@ -58,128 +59,49 @@ func runC02(c *Ctx, r *Rec) {
 	searchFn := c.funcOf(search)
 
 	checkReceiverWrites(c, r, "D1-receiver-writes-persist", set)
-	// ---- D1 single gate + edge discipline
-	allowed := map[string]string{"AddValue": "InsertValue", "RemoveValue": "RemoveValue", "RemoveAll": "RemoveAll"}
+	// ---- D1 every mutation of the storage happens at the searched position (site-local rule)
+	nsites := 0
+	insertHosts, removeHosts := map[string]bool{}, map[string]bool{}
 	for _, name := range sortedKeys(ms) {
 		fd := ms[name]
+		seq := 0
 		inspectNoLit(fd.Body, func(x ast.Node) bool {
-			if rx, mname, call, ok := methodCall(x); ok && selectorField(info, rx) == storage && listMutators[mname] {
-				r.check(allowed[name] == mname, "D1-single-gate", c.fdName(fd)+"/"+mname, c.pos(call.Pos()), "the gate method and its storage mutator",
-					fmt.Sprintf("%s mutates the storage through %s: order and uniqueness are only maintained by AddValue->InsertValue at the searched slot, RemoveValue->RemoveValue at the searched index, RemoveAll", name, mname))
+			rx, mname, call, ok := methodCall(x)
+			if !ok || selectorField(info, rx) != storage || !listMutators[mname] {
+				return true
+			}
+			nsites++
+			seq++
+			construct := fmt.Sprintf("%s/%s#%d", c.fdName(fd), mname, seq)
+			switch mname {
+			case "RemoveAll":
+				r.ok("D1-searched-position", construct, c.pos(call.Pos()), "emptying the storage keeps it (trivially) ordered and duplicate-free")
+			case "InsertValue", "RemoveValue":
+				bad := searchedSite(c, info, fd, call, searchFn, mname == "RemoveValue")
+				if bad == "" {
+					if mname == "InsertValue" {
+						insertHosts[name] = true
+					} else {
+						removeHosts[name] = true
+					}
+				}
+				r.check(bad == "", "D1-searched-position", construct, c.pos(call.Pos()),
+					map[string]string{"InsertValue": "inserts the searched value at the slot returned by the search for it, only when not found", "RemoveValue": "removes the index returned by the search, only when found"}[mname], bad)
+			default:
+				r.fail("D1-searched-position", construct, c.pos(call.Pos()), fmt.Sprintf("%s mutates the ordered storage through %s: order and uniqueness are only maintained by InsertValue at the searched slot, RemoveValue at the searched index, and RemoveAll", name, mname))
 			}
 			return true
 		})
 	}
 	for _, w := range c.fieldWrites()[storage.Origin()] {
-		r.fail("D1-single-gate", c.fdName(w.In)+"/storage-write", c.pos(w.Pos), "the storage field is "+w.How+" outside the constructor")
+		r.fail("D1-searched-position", c.fdName(w.In)+"/storage-write", c.pos(w.Pos), "the storage field is "+w.How+" outside the constructor")
 	}
-	r.floor("D1-single-gate", 3)
-	for _, gate := range []struct {
-		name, mut string
-		onFound   bool
-	}{{"AddValue", "InsertValue", false}, {"RemoveValue", "RemoveValue", true}} {
-		fd := ms[gate.name]
-		construct := "collection." + set.Obj().Name() + "." + gate.name
-		if fd == nil {
-			r.undecided("D1-searched-position", construct, "", "method not found")
-			continue
-		}
-		params := paramObjs(info, fd)
-		var posObj, foundObj types.Object
-		var searchCall *ast.CallExpr
-		nSearch := 0
-		ast.Inspect(fd.Body, func(x ast.Node) bool {
-			if lhs, rhs, ok := multiDef(x); ok && len(lhs) == 2 {
-				if call, ok := ast.Unparen(rhs).(*ast.CallExpr); ok {
-					if cf := calleeOf(info, call); cf != nil && cf.Origin() == searchFn {
-						posObj, foundObj, searchCall = identObj(info, lhs[0]), identObj(info, lhs[1]), call
-						nSearch++
-					}
-				}
-			}
-			return true
-		})
-		var mutCall *ast.CallExpr
-		inspectNoLit(fd.Body, func(x ast.Node) bool {
-			if rx, mname, call, ok := methodCall(x); ok && selectorField(info, rx) == storage && mname == gate.mut {
-				mutCall = call
-			}
-			return true
-		})
-		bad := ""
-		switch {
-		case searchCall == nil || nSearch != 1 || mutCall == nil || len(params) != 1:
-			bad = "the method does not consist of one search for its parameter and one " + gate.mut + " on the storage"
-		case len(searchCall.Args) != 1 || !isObj(info, searchCall.Args[0], params[0]):
-			bad = "the search is not for the method's own parameter"
-		default:
-			g := newFG(info, fd.Body)
-			pt, _ := g.locate(mutCall)
-			guarded := false
-			for _, ec := range g.edgeConds(pt) {
-				cond, pol := ast.Unparen(ec.cond), ec.polarity
-				if u, ok := cond.(*ast.UnaryExpr); ok && u.Op == token.NOT {
-					cond, pol = ast.Unparen(u.X), !pol
-				}
-				if id, ok := cond.(*ast.Ident); ok && info.Uses[id] == foundObj {
-					if pol == gate.onFound {
-						guarded = true
-					} else {
-						bad = fmt.Sprintf("%s runs on the wrong edge of the search result (found=%v)", gate.mut, pol)
-					}
-				}
-			}
-			if !guarded && bad == "" {
-				bad = fmt.Sprintf("%s is not guarded by the found flag of the search: %s", gate.mut, map[bool]string{false: "a value already present is inserted again (duplicate)", true: "an absent value removes whatever sits at the returned slot"}[gate.onFound])
-			}
-			// position operand is result #0 of that same search (modulo a conversion)
-			posArg := ast.Unparen(mutCall.Args[0])
-			if call, ok := posArg.(*ast.CallExpr); ok && len(call.Args) == 1 {
-				if tv, ok := info.Types[call.Fun]; ok && tv.IsType() {
-					posArg = ast.Unparen(call.Args[0])
-				}
-			}
-			if !isObj(info, posArg, posObj) && bad == "" {
-				bad = "the position handed to " + gate.mut + " is " + exprStr(mutCall.Args[0]) + ", not the position returned by the search"
-			}
-			if gate.name == "AddValue" && (len(mutCall.Args) != 2 || !isObj(info, mutCall.Args[1], params[0])) && bad == "" {
-				bad = "the value inserted is not the method's parameter"
-			}
-			// the position/found variables are not modified between search and use
-			for _, o := range []types.Object{posObj, foundObj} {
-				n := 0
-				ast.Inspect(fd.Body, func(x ast.Node) bool {
-					switch s := x.(type) {
-					case *ast.AssignStmt:
-						for _, l := range s.Lhs {
-							if identObj(info, l) == o {
-								n++
-							}
-						}
-					case *ast.ValueSpec:
-						for _, nm := range s.Names {
-							if info.Defs[nm] == o {
-								n++
-							}
-						}
-					case *ast.IncDecStmt:
-						if identObj(info, s.X) == o {
-							n++
-						}
-					}
-					return true
-				})
-				if n != 1 && bad == "" {
-					bad = "the search result " + o.Name() + " is modified before it is used"
-				}
-			}
-		}
-		r.check(bad == "", "D1-searched-position", construct, c.pos(fd.Pos()),
-			fmt.Sprintf("%s at the searched position, only when found=%v, for the method's own parameter", gate.mut, gate.onFound), bad)
-	}
-	r.floor("D1-searched-position", 2)
+	r.count("storage mutation sites", nsites)
+	r.floor("D1-searched-position", 3)
 
 	// ---- D2 one order
+	cg := c.sameTypeCallGraph(set)
+	reachSearch := reachers(cg, func(n string) bool { return ms[n] == search })
 	for _, name := range sortedKeys(ms) {
 		fd := ms[name]
 		bad := ""
@@ -195,18 +117,8 @@ func runC02(c *Ctx, r *Rec) {
 			return true
 		})
 		if searchableNames[name] {
-			// must reach the search helper (directly or through ContainsValue)
-			reaches := false
-			ast.Inspect(fd.Body, func(x ast.Node) bool {
-				if call, ok := x.(*ast.CallExpr); ok {
-					if cf := calleeOf(info, call); cf != nil && (cf.Origin() == searchFn || (searchableNames[cf.Name()] && recvNamed(cf) != nil && recvNamed(cf).Origin() == set.Origin())) {
-						reaches = true
-					}
-				}
-				return true
-			})
-			if !reaches && bad == "" {
-				bad = name + " does not go through the set's search helper"
+			if !reachSearch[name] && bad == "" {
+				bad = name + " does not go through the set's search helper (directly or through other methods of the set)"
 			}
 			r.check(bad == "", "D2-one-order", c.fdName(fd), c.pos(fd.Pos()), "answered by the set's own binary search under its own collator", bad)
 		} else if bad != "" {
@@ -215,15 +127,34 @@ func runC02(c *Ctx, r *Rec) {
 	}
 	r.floor("D2-one-order", 4)
 
-	// ---- D5 bulk operations are folds of the single-value gates
-	for _, b := range [][2]string{{"AddValues", "AddValue"}, {"RemoveValues", "RemoveValue"}} {
-		if fd := ms[b[0]]; fd != nil {
-			bad := bulkFold(c, info, fd, b[1], true)
-			r.check(bad == "", "D5-bulk-fold", c.fdName(fd), c.pos(fd.Pos()), "applies "+b[1]+" to every element of the operand", bad)
+	// ---- D5 bulk operations are folds of the single-value operations
+	adders := reachers(cg, func(n string) bool { return insertHosts[n] })
+	removers := reachers(cg, func(n string) bool { return removeHosts[n] })
+	bulkAdders := map[string]bool{"AddValues": true}
+	for _, b := range []struct {
+		name   string
+		accept map[string]bool
+		deleg  map[string]bool
+	}{{"AddValues", adders, nil}, {"RemoveValues", removers, nil}} {
+		if fd := ms[b.name]; fd != nil {
+			acc := map[string]bool{}
+			for n := range b.accept {
+				if n != b.name {
+					acc[n] = true
+				}
+			}
+			bad := bulkFoldSet(c, info, fd, acc, b.deleg)
+			r.check(bad == "", "D5-bulk-fold", c.fdName(fd), c.pos(fd.Pos()), "applies the single-value operation to every element of the operand", bad)
 		}
 	}
 	if fd := c.methodsOf(cls)["MakeFromSequence"]; fd != nil {
-		bad := bulkFold(c, info, fd, "AddValue", false)
+		acc := map[string]bool{}
+		for n := range adders {
+			if ast.IsExported(n) && n != "AddValues" {
+				acc[n] = true
+			}
+		}
+		bad := bulkFoldSet(c, info, fd, acc, bulkAdders)
 		r.check(bad == "", "D5-bulk-fold", c.fdName(fd), c.pos(fd.Pos()), "adds every element of the source", bad)
 	}
 	r.floor("D5-bulk-fold", 3)
@@ -263,7 +194,9 @@ func checkBinarySearch(c *Ctx, r *Rec, info *types.Info, set *types.Named, fd *a
 	construct := c.fdName(fd)
 	rule := "D3-binary-search-step"
 	fail := func(msg string) { r.fail(rule, construct, c.pos(fd.Pos()), msg) }
-	und := func(msg string) { r.undecided(rule, construct, c.pos(fd.Pos()), msg) }
+	skip := func(msg string) {
+		r.skip(rule, construct, c.pos(fd.Pos()), "the search helper is written in a form this rule does not understand ("+msg+"); its arithmetic is not checked")
+	}
 	params := paramObjs(info, fd)
 	recv := recvObj(info, fd)
 	var loop *ast.ForStmt
@@ -274,98 +207,165 @@ func checkBinarySearch(c *Ctx, r *Rec, info *types.Info, set *types.Named, fd *a
 			break
 		}
 	}
-	if loop == nil || loop.Cond == nil || len(params) != 1 {
-		und("the search helper is not `declarations; for <size> > 0 { ... }; return`")
+	if loop == nil || loop.Cond == nil || loop.Init != nil || loop.Post != nil || len(params) != 1 {
+		skip("not `declarations; for <condition> { ... }; return`")
 		return
 	}
-	// size variable: the one tested by the loop condition  size > 0
-	be, ok := ast.Unparen(loop.Cond).(*ast.BinaryExpr)
-	if !ok {
-		und("unrecognised loop condition")
-		return
-	}
-	sizeObj := identObj(info, be.X)
-	if tv := info.Types[be.Y]; sizeObj == nil || be.Op != token.GTR || tv.Value == nil || tv.Value.String() != "0" {
-		und("the loop condition is not `size > 0`")
-		return
-	}
-	// interpret the prefix to learn the initial values
+	// ---- initial values of the loop-carried integer variables
 	env0 := &symEnv{info: info, resolve: sizeResolver(info, recv, "n")}
 	p0 := symRun(env0, &ast.BlockStmt{List: fd.Body.List[:loopIdx]})
 	if len(env0.problems) > 0 || len(p0) != 1 {
-		und("cannot interpret the initialisation: " + strings.Join(env0.problems, "; "))
+		skip("cannot interpret the initialisation")
 		return
 	}
-	var firstKey, lastKey string
-	sizeKey := objKey(sizeObj)
+	envK := &symEnv{info: info}
+	var carried []string
 	for key, v := range p0[0].State {
-		if key == sizeKey || v.Lin == nil {
-			continue
-		}
-		switch {
-		case v.Lin.equal(k(1)):
-			firstKey = key
-		case v.Lin.equal(sym("n")):
-			lastKey = key
+		if v.Lin != nil && assignedIn(info, loop.Body, key, envK) {
+			carried = append(carried, key)
 		}
 	}
-	if firstKey == "" || lastKey == "" || p0[0].State[sizeKey].Lin == nil || !p0[0].State[sizeKey].Lin.equal(sym("n")) {
-		fail("the search does not start with first = 1, last = size of the set, size = last (the invariant size = last-first+1 does not hold initially)")
+	sort.Strings(carried)
+	name := func(key string) string { return strings.SplitN(key, "@", 2)[0] }
+	var lKey, uKey, sKey string
+	var ones, ns []string
+	for _, key := range carried {
+		switch {
+		case p0[0].State[key].Lin.equal(k(1)):
+			ones = append(ones, key)
+		case p0[0].State[key].Lin.equal(sym("n")):
+			ns = append(ns, key)
+		}
+	}
+	// the variable (if any) that the loop condition compares with a constant is the size
+	condVars := map[string]bool{}
+	ast.Inspect(loop.Cond, func(x ast.Node) bool {
+		if id, ok := x.(*ast.Ident); ok {
+			condVars[objKey(info.Uses[id])] = true
+		}
+		return true
+	})
+	switch {
+	case len(carried) == 3 && len(ones) == 1 && len(ns) == 2:
+		lKey = ones[0]
+		for _, key := range ns {
+			if condVars[key] && len(condVars) >= 1 && !condVars[lKey] {
+				sKey = key
+			}
+		}
+		for _, key := range ns {
+			if key != sKey {
+				uKey = key
+			}
+		}
+		if sKey == "" {
+			skip("three interval variables but the loop does not test the size")
+			return
+		}
+	case len(carried) == 2 && len(ones) == 1 && len(ns) == 1:
+		lKey, uKey = ones[0], ns[0]
+	default:
+		if len(ones) != 1 || len(ns) == 0 {
+			fail("the search does not start from the whole list: the interval variables must start at 1 and at the size of the set")
+		} else {
+			skip(fmt.Sprintf("%d loop-carried interval variables", len(carried)))
+		}
 		return
 	}
-	// ---- interpret one iteration under the invariant
-	first, size, half := sym("first"), sym("size"), sym("half")
-	env := &symEnv{info: info}
-	env.base = Cube{first.scale(-1).plus(1) /* first>=1 */, size.scale(-1).plus(1) /* size>=1 in the loop */, half.scale(-1) /* half>=0 */, half.sub(size).plus(1) /* half<=size-1 */}
+	L, U := sym("L"), sym("U")
+	var S *Lin
+	init := map[string]Val{lKey: {Lin: L}}
+	base := Cube{L.scale(-1).plus(1)} // L >= 1
+	if sKey != "" {
+		S = sym("S")
+		init[sKey] = Val{Lin: S}
+		init[uKey] = Val{Lin: L.add(S).plus(-1)} // invariant S = U-L+1, holds initially (1, n, n)
+		U = L.add(S).plus(-1)
+	} else {
+		init[uKey] = Val{Lin: U}
+	}
+	width := U.sub(L).plus(1) // number of candidates
+	// ---- the loop condition must be `at least one candidate`
+	envC := &symEnv{info: info, init: init}
+	stC := &symState{vars: map[string]Val{}}
+	for k2, v := range init {
+		stC.vars[k2] = v
+	}
+	cond := envC.eval(stC, loop.Cond)
+	if cond.B == nil {
+		skip("loop condition is not an integer comparison")
+		return
+	}
+	nonEmpty := ge(width, k(1))
+	if s1, _ := satF(base, and(cond.B, not(nonEmpty))); s1 {
+		fail(fmt.Sprintf("the loop continues with an empty candidate interval (condition %s): the probe falls outside the interval", exprStr(loop.Cond)))
+		return
+	}
+	if s2, _ := satF(append(append(Cube{}, base...), width.scale(-1)), and(not(cond.B), nonEmpty)); s2 { // width >= 0 && non-empty but loop stops
+		fail(fmt.Sprintf("the loop stops (condition %s) while candidates remain: members are not found", exprStr(loop.Cond)))
+		return
+	}
+	// ---- one iteration
+	env := &symEnv{info: info, init: init}
+	env.base = append(append(Cube{}, base...), width.scale(-1).plus(1)) // width >= 1 inside the loop
 	type probe struct {
 		idx  *Lin
 		cube Cube
+		pos  token.Pos
 	}
 	var probes []probe
 	var rankCall *ast.CallExpr
-	badHalf := ""
+	nhalf := 0
 	env.resolve = func(e ast.Expr) (Val, bool) {
 		switch x := e.(type) {
 		case *ast.BinaryExpr:
 			if x.Op == token.QUO {
 				if tv := info.Types[x.Y]; tv.Value != nil && tv.Value.String() == "2" {
 					num := env.eval(env.cur, x.X)
-					if num.Lin == nil || !num.Lin.equal(size) {
-						badHalf = "the midpoint offset is " + exprStr(x) + ", not size/2"
+					if num.Lin == nil {
+						return Val{}, false
 					}
-					return Val{Lin: half}, true
+					nhalf++
+					h := linSym(fmt.Sprintf("half%d", nhalf))
+					// h = floor(N/2):  2h <= N <= 2h+1 ; h >= 0 and h <= N-1 when N >= 1
+					env.base = append(env.base, h.scale(2).sub(num.Lin), num.Lin.sub(h.scale(2)).plus(-1))
+					full := append(append(Cube{}, env.base...), env.cur.cube...)
+					if entailsCube(full, ge(num.Lin, k(1))) {
+						env.base = append(env.base, h.scale(-1), h.sub(num.Lin).plus(1))
+					} else if entailsCube(full, ge(num.Lin, k(0))) {
+						env.base = append(env.base, h.scale(-1), h.sub(num.Lin))
+					}
+					return Val{Lin: h}, true
 				}
 			}
 		case *ast.CallExpr:
 			if rx, mname, call, ok := methodCall(x); ok {
 				if mname == "GetValue" && len(call.Args) == 1 && recvRooted(info, rx, recv) {
 					idx := env.eval(env.cur, call.Args[0])
-					probes = append(probes, probe{idx.Lin, append(Cube{}, env.cur.cube...)})
+					probes = append(probes, probe{idx.Lin, append(Cube{}, env.cur.cube...), call.Pos()})
 					return Val{Opaque: "candidate"}, true
 				}
 				if mname == "RankValues" && len(call.Args) == 2 {
 					rankCall = call
+					for _, a := range call.Args {
+						env.eval(env.cur, a) // records a probe written inline
+					}
 					return Val{Lin: linSym("rank")}, true
 				}
 			}
 		}
 		return Val{}, false
 	}
-	env.init = map[string]Val{firstKey: {Lin: first}, sizeKey: {Lin: size}, lastKey: {Lin: first.add(size).plus(-1)}}
+	env.loopBody = true
 	paths := symRun(env, loop.Body)
 	if len(env.problems) > 0 {
-		und("SYM cannot interpret the search step: " + strings.Join(dedup(env.problems), "; "))
-		return
-	}
-	if badHalf != "" {
-		fail(badHalf)
+		skip("the loop body uses statements outside the interpreter's vocabulary: " + strings.Join(dedup(env.problems), "; "))
 		return
 	}
 	if rankCall == nil {
 		fail("the search step does not rank the sought value against the probed candidate")
 		return
 	}
-	// orientation of the ranking call: RankValues(value, candidate) or (candidate, value)
 	if rx, _, _, _ := methodCall(rankCall); selectorField(info, rx) != collF {
 		fail("the ranking is not done by the set's own collator field")
 		return
@@ -376,9 +376,8 @@ func checkBinarySearch(c *Ctx, r *Rec, info *types.Info, set *types.Named, fd *a
 		fail("the ranking call does not compare the sought value with the probed candidate")
 		return
 	}
-	// Rank constants
-	rankConst := func(name string) int64 {
-		if o := c.Pkgs["agent"].Types.Scope().Lookup(name); o != nil {
+	rankConst := func(nm string) int64 {
+		if o := c.Pkgs["agent"].Types.Scope().Lookup(nm); o != nil {
 			if cst, ok := o.(*types.Const); ok {
 				if v, ok := constInt(cst); ok {
 					return v
@@ -391,128 +390,127 @@ func checkBinarySearch(c *Ctx, r *Rec, info *types.Info, set *types.Named, fd *a
 	if !valueFirst {
 		lesser, greater = greater, lesser
 	}
-	middle := first.add(half)
-	var viol []string
-	for _, pr := range probes {
-		if pr.idx == nil || !pr.idx.equal(middle) {
-			viol = append(viol, fmt.Sprintf("the probed position is %v, required first + size/2", pr.idx))
-		}
+	rank := sym("rank")
+	lo, hi := lesser, greater
+	if lo > hi {
+		lo, hi = hi, lo
 	}
+	env.base = append(env.base, rank.scale(-1).plus(lo), rank.plus(-hi)) // the rank is one of the three constants
+	var viol []string
 	if len(probes) == 0 {
 		viol = append(viol, "no element is probed")
 	}
-	rank := sym("rank")
+	var m *Lin
+	for _, pr := range probes {
+		if pr.idx == nil {
+			viol = append(viol, "the probed position is not a linear form")
+			continue
+		}
+		m = pr.idx
+		full := append(append(Cube{}, env.base...), pr.cube...)
+		if !entailsCube(full, and(ge(pr.idx, L), le(pr.idx, U))) {
+			viol = append(viol, fmt.Sprintf("the probed position %v can lie outside the candidate interval [first, last] (%s): an element outside the interval is compared, or an index outside the list is read", pr.idx, c.pos(pr.pos)))
+		}
+	}
+	if m == nil {
+		if len(viol) == 0 {
+			viol = append(viol, "no probe")
+		}
+		fail(strings.Join(dedup(viol), " | "))
+		return
+	}
 	get := func(p symPath, key string, dflt *Lin) *Lin {
+		if key == "" {
+			return nil
+		}
 		if v, ok := p.State[key]; ok {
 			return v.Lin
 		}
 		return dflt
 	}
+	eqUnder := func(full Cube, a, b *Lin) bool {
+		if a == nil || b == nil {
+			return false
+		}
+		s, d := satF(full, ne(a, b))
+		return !s && d
+	}
 	for _, arm := range []struct {
-		name  string
-		when  *F
-		check func(p symPath) string
+		name string
+		when *F
+		kind string // "continue" or "found"
+		wL   *Lin
+		wU   *Lin
 	}{
-		{"value ranks before the probe", eq(rank, k(lesser)), func(p symPath) string {
-			if p.Kind != "fall" {
-				return "the arm must continue the search"
-			}
-			f2, l2, s2 := get(p, firstKey, first), get(p, lastKey, nil), get(p, sizeKey, size)
-			if f2 == nil || l2 == nil || s2 == nil {
-				return "non-linear update"
-			}
-			if !f2.equal(first) || !l2.equal(middle.plus(-1)) {
-				return fmt.Sprintf("it keeps [%v, %v], required [first, middle-1] (the elements from the probe on rank after the value)", f2, l2)
-			}
-			if !l2.equal(f2.add(s2).plus(-1)) {
-				return fmt.Sprintf("it breaks the invariant: size becomes %v but last-first+1 = %v", s2, l2.sub(f2).plus(1))
-			}
-			return ""
-		}},
-		{"value ranks after the probe", eq(rank, k(greater)), func(p symPath) string {
-			if p.Kind != "fall" {
-				return "the arm must continue the search"
-			}
-			f2, l2, s2 := get(p, firstKey, first), get(p, lastKey, nil), get(p, sizeKey, size)
-			if f2 == nil || l2 == nil || s2 == nil {
-				return "non-linear update"
-			}
-			if !f2.equal(middle.plus(1)) || !l2.equal(first.add(size).plus(-1)) {
-				return fmt.Sprintf("it keeps [%v, %v], required [middle+1, last] (the elements up to the probe rank before the value)", f2, l2)
-			}
-			if !l2.equal(f2.add(s2).plus(-1)) {
-				return fmt.Sprintf("it breaks the invariant: size becomes %v but last-first+1 = %v", s2, l2.sub(f2).plus(1))
-			}
-			return ""
-		}},
-		{"value ranks equal to the probe", eq(rank, k(equal)), func(p symPath) string {
-			if p.Kind != "return" || len(p.Rets) != 2 || p.Rets[0].Lin == nil || p.Rets[1].B == nil {
-				return "the arm must return (probe position, true)"
-			}
-			if !p.Rets[0].Lin.equal(middle) {
-				return fmt.Sprintf("it returns position %v, required the probed position first+size/2", p.Rets[0].Lin)
-			}
-			if s, _ := satF(nil, fNotOf(p.Rets[1].B)); s {
-				return "it does not return found = true"
-			}
-			return ""
-		}},
+		{"value ranks before the probe", eq(rank, k(lesser)), "continue", L, m.plus(-1)},
+		{"value ranks after the probe", eq(rank, k(greater)), "continue", m.plus(1), U},
+		{"value ranks equal to the probe", eq(rank, k(equal)), "found", nil, nil},
 	} {
 		matched := false
 		for _, p := range paths {
-			all := append(append(Cube{}, env.base...), p.Cube...)
-			if sat, _ := satF(all, arm.when); !sat {
+			full := append(append(Cube{}, env.base...), p.Cube...)
+			if sat, _ := satF(full, arm.when); !sat {
+				continue
+			}
+			for _, cb := range dnf(arm.when) {
+				full = append(full, cb...)
+			}
+			if s, _ := feasible(full); !s {
 				continue
 			}
 			matched = true
-			if msg := arm.check(p); msg != "" {
-				viol = append(viol, "when the "+arm.name+": "+msg)
+			if arm.kind == "found" {
+				if p.Kind != "return" || len(p.Rets) != 2 || p.Rets[0].Lin == nil || p.Rets[1].B == nil {
+					viol = append(viol, "when the "+arm.name+": the step must return (probe position, true)")
+					continue
+				}
+				if !eqUnder(full, p.Rets[0].Lin, m) {
+					viol = append(viol, fmt.Sprintf("when the %s: it returns position %v, required the probed position", arm.name, p.Rets[0].Lin))
+				}
+				if s, _ := satF(full, fNotOf(p.Rets[1].B)); s {
+					viol = append(viol, "when the "+arm.name+": it does not return found = true")
+				}
 				continue
 			}
-			if p.Kind == "fall" {
-				s2 := get(p, sizeKey, size)
-				if h, d := holdsOn(env, p.Cube, and(ge(s2, k(0)), lt(s2, size))); !h || !d {
-					viol = append(viol, fmt.Sprintf("when the %s: the new size %v is not within 0 <= size' < size (termination / non-negative interval)", arm.name, s2))
+			if p.Kind != "fall" {
+				viol = append(viol, "when the "+arm.name+": the search must continue, but the step "+p.Kind+"s")
+				continue
+			}
+			l2, u2 := get(p, lKey, L), get(p, uKey, U)
+			if sKey != "" {
+				s2 := get(p, sKey, S)
+				if s2 == nil || u2 == nil || l2 == nil || !eqUnder(full, s2, u2.sub(l2).plus(1)) {
+					viol = append(viol, fmt.Sprintf("when the %s: the size becomes %v but last-first+1 = %v: the invariant size = last-first+1 is broken", arm.name, s2, u2.sub(l2).plus(1)))
+					continue
 				}
-				f2 := get(p, firstKey, first)
-				if h, d := holdsOn(env, p.Cube, ge(f2, k(1))); !h || !d {
-					viol = append(viol, "first can drop below 1")
-				}
+			}
+			if !eqUnder(full, l2, arm.wL) || !eqUnder(full, u2, arm.wU) {
+				viol = append(viol, fmt.Sprintf("when the %s: the step keeps [%v, %v], required [%v, %v] (%s)", arm.name, l2, u2, arm.wL, arm.wU,
+					map[string]string{"value ranks before the probe": "the probe and everything after it rank after the value", "value ranks after the probe": "the probe and everything before it rank before the value"}[arm.name]))
 			}
 		}
 		if !matched {
-			viol = append(viol, "no arm handles the case that the "+arm.name)
+			viol = append(viol, "no path handles the case that the "+arm.name)
 		}
 	}
-	// the probe lies inside [first, last]: 0 <= half <= size-1 (base) gives first <= middle <= last
-	// a path on which none of the three ranks matched must not exist as a silent fall-through that keeps the interval
-	for _, p := range paths {
-		all := append(append(Cube{}, env.base...), p.Cube...)
-		if sat, _ := satF(all, and(ne(rank, k(lesser)), ne(rank, k(equal)), ne(rank, k(greater)))); sat && p.Kind == "fall" {
-			s2 := get(p, sizeKey, size)
-			if s2 != nil && s2.equal(size) {
-				// unreachable for a well-behaved collator; tolerated
-			}
-		}
-	}
-	// ---- after the loop: return (first-1, false) under size = 0
-	env2 := &symEnv{info: info}
-	env2.init = map[string]Val{firstKey: {Lin: first}, sizeKey: {Lin: size}, lastKey: {Lin: first.add(size).plus(-1)}}
-	env2.base = Cube{size, size.scale(-1), first.scale(-1).plus(1)} // size = 0
+	// ---- exhaustion: under `no candidates left` (U = L-1) the helper returns (L-1, false)
+	env2 := &symEnv{info: info, init: init}
+	env2.base = append(append(Cube{}, base...), width, width.scale(-1)) // width == 0
 	for _, p := range symRun(env2, &ast.BlockStmt{List: fd.Body.List[loopIdx+1:]}) {
 		if p.Kind != "return" || len(p.Rets) != 2 || p.Rets[0].Lin == nil || p.Rets[1].B == nil {
 			viol = append(viol, "after the loop the helper must return (slot, false)")
 			continue
 		}
-		if s, _ := satF(env2.base, ne(p.Rets[0].Lin, first.plus(-1))); s {
-			viol = append(viol, fmt.Sprintf("on exhaustion it returns slot %v, required first-1 = last: the number of elements ranking before the value (AddValue inserts after that many)", p.Rets[0].Lin))
+		full := append(append(Cube{}, env2.base...), p.Cube...)
+		if !eqUnder(full, p.Rets[0].Lin, L.plus(-1)) {
+			viol = append(viol, fmt.Sprintf("on exhaustion it returns slot %v, required first-1 (= last): the number of members ranking before the value (AddValue inserts after that many)", p.Rets[0].Lin))
 		}
-		if s, _ := satF(nil, p.Rets[1].B); s {
+		if s, _ := satF(full, p.Rets[1].B); s {
 			viol = append(viol, "on exhaustion it does not return found = false")
 		}
 	}
 	if len(env2.problems) > 0 {
-		und("cannot interpret the code after the loop: " + strings.Join(env2.problems, "; "))
+		skip("cannot interpret the code after the loop")
 		return
 	}
 	r.count("SYM paths", len(paths))
@@ -520,7 +518,11 @@ func checkBinarySearch(c *Ctx, r *Rec, info *types.Info, set *types.Named, fd *a
 		fail(strings.Join(dedup(viol), " | "))
 		return
 	}
-	r.ok(rule, construct, c.pos(fd.Pos()), fmt.Sprintf("%d step paths: invariant size=last-first+1 preserved, probe inside the interval, halves kept on the correct side for all three ranks, strict decrease, (first-1,false) on exhaustion", len(paths)))
+	rep := "first/last"
+	if sKey != "" {
+		rep = "first/last/size with the invariant size = last-first+1"
+	}
+	r.ok(rule, construct, c.pos(fd.Pos()), fmt.Sprintf("%d step paths over the interval representation %s (%s..%s): probe inside the interval, the correct half kept for each rank, (probe, true) on Equal, strict shrink, (first-1, false) on exhaustion", len(paths), rep, name(lKey), name(uKey)))
 }
 
 func constInt(cst *types.Const) (int64, bool) {
@@ -528,4 +530,127 @@ func constInt(cst *types.Const) (int64, bool) {
 	var v int64
 	_, err := fmt.Sscan(s, &v)
 	return v, err == nil
+}
+
+// searchedSite checks one InsertValue/RemoveValue call on the set's storage: the position is the
+// one returned by a search (in the same function) for the very value concerned, the call is
+// reachable only on the matching found/not-found outcome of that search, and (for inserts) the
+// value inserted is the value searched for.  Returns "" or a complaint.
+func searchedSite(c *Ctx, info *types.Info, fd *ast.FuncDecl, site *ast.CallExpr, searchFn *types.Func, wantFound bool) string {
+	type srch struct {
+		node     ast.Node
+		call     *ast.CallExpr
+		pos, fnd types.Object
+	}
+	var searches []srch
+	ast.Inspect(fd.Body, func(x ast.Node) bool {
+		if lhs, rhs, ok := multiDef(x); ok && len(lhs) == 2 {
+			if call, ok := ast.Unparen(rhs).(*ast.CallExpr); ok {
+				if cf := calleeOf(info, call); cf != nil && cf.Origin() == searchFn.Origin() {
+					searches = append(searches, srch{x, call, identObj(info, lhs[0]), identObj(info, lhs[1])})
+				}
+			}
+		}
+		return true
+	})
+	g := newFG(info, fd.Body)
+	var s *srch
+	for i := range searches {
+		if g.nodeDominates(searches[i].call, site) {
+			s = &searches[i]
+		}
+	}
+	what := map[bool]string{false: "inserted", true: "removed"}[wantFound]
+	if s == nil {
+		return "the position " + what + " does not come from a search in this function: the set's order is not consulted"
+	}
+	if len(s.call.Args) != 1 {
+		return "unexpected search call"
+	}
+	// position operand (modulo a conversion)
+	posArg := ast.Unparen(site.Args[0])
+	for i := 0; i < 4; i++ {
+		if call, ok := posArg.(*ast.CallExpr); ok && len(call.Args) == 1 {
+			if tv, ok := info.Types[call.Fun]; ok && tv.IsType() {
+				posArg = ast.Unparen(call.Args[0])
+				continue
+			}
+		}
+		if id, ok := posArg.(*ast.Ident); ok && s.pos != nil && info.Uses[id] != s.pos {
+			if init := initOf(info, fd, id); init != nil {
+				posArg = ast.Unparen(init)
+				continue
+			}
+		}
+		break
+	}
+	if s.pos == nil || !isObj(info, posArg, s.pos) {
+		return "the position handed to the storage is " + exprStr(site.Args[0]) + ", not the position returned by the search"
+	}
+	if !wantFound {
+		if len(site.Args) != 2 || exprStr(ast.Unparen(site.Args[1])) != exprStr(ast.Unparen(s.call.Args[0])) {
+			return "the value inserted is not the value that was searched for"
+		}
+	}
+	// neither result is modified between the search and the site
+	for _, o := range []types.Object{s.pos, s.fnd} {
+		if o == nil {
+			continue
+		}
+		n := 0
+		ast.Inspect(fd.Body, func(x ast.Node) bool {
+			switch st := x.(type) {
+			case *ast.AssignStmt:
+				for _, l := range st.Lhs {
+					if identObj(info, l) == o {
+						n++
+					}
+				}
+			case *ast.ValueSpec:
+				for _, nm := range st.Names {
+					if info.Defs[nm] == o {
+						n++
+					}
+				}
+			case *ast.IncDecStmt:
+				if identObj(info, st.X) == o {
+					n++
+				}
+			}
+			return true
+		})
+		if n != 1 {
+			return "the search result " + o.Name() + " is modified before it is used"
+		}
+	}
+	if s.fnd == nil || s.fnd.Name() == "_" {
+		return "the found flag of the search is discarded: the storage is " + map[bool]string{false: "given a value that may already be a member (duplicate)", true: "asked to remove whatever sits at the returned slot"}[wantFound]
+	}
+	// is the site reachable along edges on which found has the WRONG value?
+	pt, ok := g.after(s.node)
+	if !ok {
+		// the definition may be a ValueSpec inside a DeclStmt
+		pt, ok = g.after(s.call)
+	}
+	if !ok {
+		return ""
+	}
+	wrong, _ := g.exists(pathQuery{from: pt,
+		goalNode: func(n ast.Node) bool { return containsNode(n, site) },
+		edgeOK: func(cond ast.Expr, pol bool) bool {
+			cd := ast.Unparen(cond)
+			if u, ok := cd.(*ast.UnaryExpr); ok && u.Op == token.NOT {
+				cd, pol = ast.Unparen(u.X), !pol
+			}
+			if id, ok := cd.(*ast.Ident); ok && info.Uses[id] == s.fnd {
+				// on this edge found == pol; follow it only if that is the wrong outcome
+				return pol != wantFound
+			}
+			return true
+		}})
+	if wrong {
+		return fmt.Sprintf("the storage is %s also when the search reported found=%v: %s", map[bool]string{false: "extended", true: "shortened"}[wantFound], !wantFound,
+			map[bool]string{false: "a value already present is inserted again (duplicate)", true: "an absent value removes whatever sits at the returned slot"}[wantFound])
+	}
+	return ""
 }
